@@ -1,7 +1,7 @@
 #!/bin/bash
 # mutant_matrix.sh [names...] : for every seeded change (default: all) run the quick checks of the properties it breaks
 # (plus any extra ids listed in meta.json "also") and record the outcome in seeded/<name>/meta.json (detected_by).
-# Serial: patches /repo's working tree while it runs -- run nothing else against /repo meanwhile.
+# Works on a copy of /repo (see try_mutant.sh); runs serially only because the trials share one build cache.
 cd /verif
 names=("$@"); [ ${#names[@]} -eq 0 ] && names=($(ls seeded))
 for n in "${names[@]}"; do
@@ -22,4 +22,4 @@ d['detected_by']=det
 json.dump(d,open(p,'w'),indent=1)
 PY
 done
-git -C /repo status --short | grep -v _build
+
